@@ -326,6 +326,15 @@ def sec_selfcheck(rep, seed):
     rep.add(Ob("C16/selfcheck/classification-canary", "canary", PROVED if ok else "error", "eval", 0, "KeyError -> internal, ValueError(msg) -> explicit, ValueError('') -> internal"))
 
 
+def sec_runner_totality(rep):
+    """Runner.get_result returns for observables with 0, 1, 2, 3 points in every Q2 ordering (ties
+    included) -- no internal index error for an empty or single-point observable: the result-placement
+    contract of C14 (symbolic Q2), re-discharged here for its totality half."""
+    from . import c14
+
+    c14.sec_runner(rep)
+
+
 def sec_sv_history(rep):
     """No internal lookup error through the scale-variation manager shared by the points of a run:
     after any history of flavour numbers every (label, nf) the tables read exists (cache invariant
@@ -342,7 +351,7 @@ def run(rep, tier, seed, only=None):
         "in-repo formulas finite on their domain: C03 definedness obligations (run under C03)",
         "explicit rejection := ValueError / NotImplementedError / RuntimeError with a non-empty message",
     )
-    for nm, f in (("dispatch", lambda r: sec_dispatch(r, tier)), ("tmc", sec_tmc_dispatch), ("kinematics", sec_kinematics), ("nans", sec_nans), ("svhistory", sec_sv_history)):
+    for nm, f in (("dispatch", lambda r: sec_dispatch(r, tier)), ("tmc", sec_tmc_dispatch), ("kinematics", sec_kinematics), ("nans", sec_nans), ("svhistory", sec_sv_history), ("runnertotality", sec_runner_totality)):
         if only and only not in nm:
             continue
         rep.add(guarded(f"C16/{nm}", lambda f=f: (f(rep), [])[1]))
